@@ -18,6 +18,8 @@ import (
 	"github.com/oasisprotocol/oasis-core/go/common/crypto/hash"
 	"github.com/oasisprotocol/oasis-core/go/common/logging"
 	"github.com/oasisprotocol/oasis-core/go/consensus/api/transaction"
+	beaconState "github.com/oasisprotocol/oasis-core/go/consensus/cometbft/apps/beacon/state"
+	"github.com/oasisprotocol/oasis-core/go/storage/mkvs"
 	staking "github.com/oasisprotocol/oasis-core/go/staking/api"
 )
 
@@ -46,6 +48,14 @@ type cnDriver struct {
 }
 
 func (d *cnDriver) emit(m map[string]any) {
+	for k, v := range m { // TLC's JSON module cannot read null
+		if mm, ok := v.(map[string]any); v == nil || (ok && mm == nil) {
+			delete(m, k)
+		}
+	}
+	if ev, ok := m["evidence"].([]int); ok && ev == nil {
+		m["evidence"] = []int{}
+	}
 	d.nEvents++
 	d.w.Write(mustJSON(m))
 	d.w.WriteByte('\n')
@@ -455,7 +465,8 @@ func (d *cnDriver) observe(b *cnBlock, metas []cnTxMeta) cnBlockResult {
 		if err != nil {
 			panic(err)
 		}
-		d.emit(map[string]any{"ev": "begin", "h": b.Height, "state": proj})
+		ep, _, _ := beaconState.NewImmutableState(st2(r)).GetEpoch(bgCtx)
+		d.emit(map[string]any{"ev": "begin", "h": b.Height, "epoch": int64(ep), "slashed": len(b.Evidence) > 0, "state": proj})
 		for i, tx := range b.Txs {
 			env := d.decodeEnvelope(tx)
 			resp := r.deliver(tx)
@@ -499,6 +510,12 @@ func (d *cnDriver) observe(b *cnBlock, metas []cnTxMeta) cnBlockResult {
 		d.emit(map[string]any{"ev": "panic", "h": b.Height, "where": "observer", "msg": perr.Error()[:min(len(perr.Error()), 2000)]})
 	}
 	return res
+}
+
+// st2 returns the live state tree (the context is closed lazily: the tree stays valid within the block).
+func st2(r *cnReplica) mkvs.KeyValueTree {
+	t, _ := r.liveState()
+	return t
 }
 
 func consRun(args []string) int {
